@@ -28,6 +28,24 @@ CLAIMED = {
         design="§4 C02", technique="Coq proof (flux/cone identities, closed-chain cancellation, refutation witness by vm_compute) + model/implementation correspondence",
         note="polytri is an oracle (triangles mapped to indices, count and closedness checked); face planarity/convexity/orientation are the documented precondition; "
              "known finding polytri-absolute-thresholds (valid small meshes raise)."),
+    "C05": dict(
+        text="Theorems: the normalised plane test has the sign of the exact side value and is membership in the face half-spaces (convex); the norm "
+             "tests of Sphere/Ellipsoid are the quadratic membership tests; the 3-D winding answer is independent of triangle order (partial: "
+             "equality with membership for arbitrary closed meshes is not proved); Paramcoq transfer of the executable models. Tie: the faithful "
+             "winding-number model and the independent exact specifications (half-spaces, signed tetrahedron covering number with generic apex, "
+             "exact squared distance to the core for spheropolyhedra) are evaluated in exact rationals on the same shapes/points as the implementation, "
+             "incl. lattice points sharing coordinates with vertices and points at 1e-6 size from faces/edges/vertices; batch vs single.",
+        design="§4 C05", technique="Coq proof (real-closed-field lemmas, permutation invariance, Paramcoq transfer) + exact-rational model/implementation correspondence",
+        note="3-D winding = membership is partial (correspondence only); spheropolyhedron cascade is compared against the exact distance spec, not modelled step by step; "
+             "boundary margin 1e-9 size."),
+    "C06": dict(
+        text="Theorems (any vertex cycle, any query point): the polygon winding answer is invariant under cyclic shifts; reversal negates the turn sum, "
+             "so the answer is orientation-free whenever the turn sum is even (partial: evenness run-time checked); circle norm test = quadratic test; "
+             "Ellipse.is_inside refuted by a computed witness (known finding, pinned by the suite) with the completeness half proved; Paramcoq transfer. "
+             "Tie: faithful model of the L/R tie-breaking and the independent crossing-parity spec evaluated in exact rationals on the implementation's "
+             "inputs (xy-plane exact frame incl. the mirrored frame kabsch uses for -z normals, exact 3-D placements, (N,2) input), batch vs single.",
+        design="§4 C06", technique="Coq proof (list permutation lemmas over cyclic pairs, sign algebra, refutation by vm_compute) + exact-rational correspondence",
+        note="winding number = crossing parity (Jordan-type statement) is not proved, it is the per-point correspondence; known finding ellipse-box-test."),
 }
 
 REASON_TODO = "check not built yet (work in progress this round)"
